@@ -509,7 +509,13 @@ class Unit:
             if kv.get('body') != 'external':
                 self.fn_labels[label] = dict(start=start, end=len(self.lines))
             return
-        body = self.inject(body, sections, label)
+        try:
+            body = self.inject(body, sections, label)
+        except LostAnchor as ex:
+            # the function is still there but a body anchor (loop / hint / closure / arm / tail) is gone: the caller may
+            # leave this function unverified (forced-external) and run its paired search
+            ex.label = label
+            raise
         for (ln, o) in body:
             self.lines.append((ln, o))
         self.fn_labels[label] = dict(start=start, end=len(self.lines))
